@@ -45,7 +45,8 @@ type c17ident struct {
 	Flips     int    `json:"flips"`
 	Scores    []byte `json:"scores,omitempty"`
 	Stake     int64  `json:"stake"`
-	Delegatee int    `json:"delegatee"` // -1 = none; never a delegation chain (finding F8 belongs to C01)
+	Shard     int    `json:"shard,omitempty"` // 1..Shards (0 = 1)
+	Delegatee int    `json:"delegatee"`       // -1 = none; never a delegation chain (finding F8 belongs to C01)
 	Inviter   int    `json:"inviter"`   // -1 = none
 }
 
@@ -73,6 +74,7 @@ type c17cer struct {
 	U10    bool       `json:"u10"`
 	U11    bool       `json:"u11"`
 	U12    bool       `json:"u12"`
+	Shards int        `json:"shards,omitempty"` // number of shards (0 = 1)
 	Ids    []c17ident `json:"ids"`
 	Subs   []c17sub   `json:"subs"`
 	Script []c17step  `json:"script"`
@@ -89,8 +91,9 @@ type c17fx struct {
 	app      *appstate.AppState
 	ss       *secstore.SecStore
 	seed     []byte
-	cands    []common.Address // shard 1, candidate order
-	candIdx  map[int]int      // identity -> candidate index
+	cands    map[int][]common.Address // per shard, candidate order
+	candIdx  map[int]int              // identity -> candidate index inside its shard
+	shardOf  []int                    // identity -> shard
 	txs      []*types.Transaction
 	txKind   []uint16
 	txOwner  []int
@@ -118,7 +121,18 @@ func c17newFx(cs c17cer) (fx *c17fx, err error) {
 			err = fmt.Errorf("fixture panic: %v", r)
 		}
 	}()
-	fx = &c17fx{cs: cs, idOf: map[common.Address]int{}, candIdx: map[int]int{}, baseH: 1, refCache: map[string]*c17result{}}
+	fx = &c17fx{cs: cs, idOf: map[common.Address]int{}, candIdx: map[int]int{}, cands: map[int][]common.Address{}, baseH: 1, refCache: map[string]*c17result{}}
+	nShards := cs.Shards
+	if nShards < 1 {
+		nShards = 1
+	}
+	for _, id := range cs.Ids {
+		sh := id.Shard
+		if sh < 1 || sh > nShards {
+			sh = 1
+		}
+		fx.shardOf = append(fx.shardOf, sh)
+	}
 	cons := *config.GetDefaultConsensusConfig()
 	if cs.U10 {
 		config.ApplyConsensusVersion(config.ConsensusV10, &cons)
@@ -154,9 +168,15 @@ func c17newFx(cs c17cer) (fx *c17fx, err error) {
 	st.SetGodAddress(god)
 	st.SetGlobalEpoch(cs.Epoch)
 	st.SetNextValidationTime(time.Unix(4070908800, 0))
+	if nShards > 1 {
+		st.SetShardsNum(uint32(nShards))
+	}
 	for i, id := range cs.Ids {
 		a := fx.addrs[i]
 		st.SetState(a, state.IdentityState(id.State))
+		if nShards > 1 {
+			st.SetShardId(a, common.ShardId(fx.shardOf[i]))
+		}
 		st.SetBirthday(a, id.Birthday)
 		st.SetRequiredFlips(a, id.Required)
 		st.SetPubKey(a, crypto.FromECDSAPub(&fx.keys[i].PublicKey))
@@ -193,9 +213,14 @@ func c17newFx(cs c17cer) (fx *c17fx, err error) {
 	fx.seed = sh[:]
 	// a scratch instance tells the candidate order and the flips every candidate has to solve
 	scratch := fx.newNode(dbm.NewMemDB(), false)
-	fx.cands = scratch.vc.VerifC17Candidates(1)
-	for ci, a := range fx.cands {
-		fx.candIdx[fx.idOf[a]] = ci
+	for sh := 1; sh <= nShards; sh++ {
+		fx.cands[sh] = scratch.vc.VerifC17Candidates(common.ShardId(sh))
+		for ci, a := range fx.cands[sh] {
+			if fx.shardOf[fx.idOf[a]] != sh {
+				return nil, fmt.Errorf("identity %d found in shard %d, expected %d", fx.idOf[a], sh, fx.shardOf[fx.idOf[a]])
+			}
+			fx.candIdx[fx.idOf[a]] = ci
+		}
 	}
 	fx.buildTxs(scratch.vc)
 	return fx, nil
@@ -214,8 +239,8 @@ func (fx *c17fx) newNode(db dbm.DB, restore bool) *c17node {
 }
 
 // majority answer of a flip (what an honest solver sees)
-func c17truth(seed int64, flipIdx int) bool {
-	h := crypto.Hash([]byte(fmt.Sprintf("truth-%d-%d", seed, flipIdx)))
+func c17truth(seed int64, shard, flipIdx int) bool {
+	h := crypto.Hash([]byte(fmt.Sprintf("truth-%d-%d-%d", seed, shard, flipIdx)))
 	return h[0]&1 == 0
 }
 
@@ -233,7 +258,7 @@ func (fx *c17fx) buildTxs(vc *ceremony.ValidationCeremony) {
 		ci, isCand := fx.candIdx[i]
 		var shortToSolve, longToSolve []int
 		if isCand {
-			shortToSolve, longToSolve, _ = vc.VerifC17FlipsToSolve(1, ci)
+			shortToSolve, longToSolve, _ = vc.VerifC17FlipsToSolve(common.ShardId(fx.shardOf[i]), ci)
 		}
 		pick := func(tag string, j int, pct int) bool {
 			h := crypto.Hash([]byte(fmt.Sprintf("%s-%d-%d-%d", tag, fx.cs.Seed, i, j)))
@@ -241,7 +266,7 @@ func (fx *c17fx) buildTxs(vc *ceremony.ValidationCeremony) {
 		}
 		sa := types.NewAnswers(uint(len(shortToSolve)))
 		for j, f := range shortToSolve {
-			t := c17truth(fx.cs.Seed, f)
+			t := c17truth(fx.cs.Seed, fx.shardOf[i], f)
 			if !pick("acc-s", j, sub.Accuracy) {
 				t = !t
 			}
@@ -256,7 +281,7 @@ func (fx *c17fx) buildTxs(vc *ceremony.ValidationCeremony) {
 		}
 		la := types.NewAnswers(uint(len(longToSolve)))
 		for j, f := range longToSolve {
-			t := c17truth(fx.cs.Seed, f)
+			t := c17truth(fx.cs.Seed, fx.shardOf[i], f)
 			if !pick("acc-l", j, sub.Accuracy) {
 				t = !t
 			}
@@ -316,9 +341,10 @@ func (fx *c17fx) buildTxs(vc *ceremony.ValidationCeremony) {
 			add(types.SubmitLongAnswersTx, 3, []byte{})
 		}
 		if sub.HasEvi {
-			bm := common.NewBitmap(uint32(len(fx.cands)))
+			// the bitmap speaks about the candidates of the sender's own shard, by index
+			bm := common.NewBitmap(uint32(len(fx.cands[fx.shardOf[i]])))
 			for _, j := range sub.Evidence {
-				if cj, ok := fx.candIdx[j]; ok {
+				if cj, ok := fx.candIdx[j]; ok && j < len(fx.shardOf) && fx.shardOf[j] == fx.shardOf[i] {
 					bm.Add(uint32(cj))
 				}
 			}
@@ -341,7 +367,8 @@ type c17result struct {
 	Count  int
 	Ids    []c17idres
 	Root   string
-	Missed []bool // per identity, from the validation stats of a first evaluation (nil on a cache hit)
+	Missed   []bool // per identity, from the validation stats of a first evaluation (nil on a cache hit)
+	Approved []bool // per identity, same source
 	Panic  string
 }
 
@@ -379,12 +406,51 @@ func (fx *c17fx) eval(n *c17node, height uint64) (res *c17result) {
 	res.Root = fmt.Sprintf("%x", cs.State.Root().Bytes()[:8]) + fmt.Sprintf("%x", cs.IdentityState.Root().Bytes()[:4])
 	if stats := n.vc.VerifC17Stats(); stats != nil && stats.Shards[1] != nil {
 		res.Missed = make([]bool, len(fx.addrs))
+		res.Approved = make([]bool, len(fx.addrs))
 		for i, a := range fx.addrs {
-			if s, ok := stats.Shards[1].IdentitiesPerAddr[a]; ok {
+			sh := stats.Shards[common.ShardId(fx.shardOf[i])]
+			if sh == nil {
+				res.Missed[i] = true
+				continue
+			}
+			if s, ok := sh.IdentitiesPerAddr[a]; ok {
 				res.Missed[i] = s.Missed
+				res.Approved[i] = s.Approved
 			} else {
 				res.Missed[i] = true // non-candidates are evaluated as missed (ceremony.go:1251)
 			}
+		}
+	}
+	return res
+}
+
+// approvedRef: who is approved according to the chain's evidence transactions, computed from the case itself:
+// an identity is approved iff more than half of the evidence maps sent by candidates of ITS OWN shard contain it
+// (appstate.CalculateApprovedCandidates over readEvidenceMaps(shard)); independent of the ceremony code.
+func (fx *c17fx) approvedRef(set []int) []bool {
+	res := make([]bool, len(fx.addrs))
+	maps := map[int]int{}   // shard -> number of evidence maps of its candidates
+	score := map[int]int{}  // identity -> number of own-shard maps containing it
+	for _, t := range set {
+		if fx.txKind[t] != types.EvidenceTx {
+			continue
+		}
+		o := fx.txOwner[t]
+		if _, isCand := fx.candIdx[o]; !isCand {
+			continue // readEvidenceMaps keeps maps of the shard's candidates only
+		}
+		maps[fx.shardOf[o]]++
+		seen := map[int]bool{}
+		for _, j := range fx.cs.Subs[o].Evidence {
+			if _, ok := fx.candIdx[j]; ok && j < len(fx.shardOf) && fx.shardOf[j] == fx.shardOf[o] && !seen[j] {
+				seen[j] = true
+				score[j]++
+			}
+		}
+	}
+	for i := range res {
+		if _, ok := fx.candIdx[i]; ok {
+			res[i] = score[i] >= maps[fx.shardOf[i]]/2+1
 		}
 	}
 	return res
@@ -652,6 +718,7 @@ func c17runCer(cs c17cer) (lines *c17lines, fails []c17failure, evals int, tags 
 				} else {
 					trans["eval:validated"] = true
 				}
+				appr := fx.approvedRef(current())
 				// the rules, on the clean node's result with its own statistics (X's result is either equal to it or already
 				// reported as differing)
 				for i, id := range cs.Ids {
@@ -660,6 +727,13 @@ func c17runCer(cs c17cer) (lines *c17lines, fails []c17failure, evals int, tags 
 					}
 					done := uint8(id.Flips) >= id.Required
 					missed := ref.Missed[i]
+					if _, isCand := fx.candIdx[i]; isCand {
+						if ref.Approved[i] != appr[i] {
+							fail("C17:approval-not-by-own-shard-evidence", fmt.Sprintf("step %d identity %d (shard %d, candidate index %d): the node treats it as approved=%v; the evidence maps of its own shard's candidates on the chain give approved=%v",
+								si, i, fx.shardOf[i], fx.candIdx[i], ref.Approved[i], appr[i]))
+						}
+						missed = missed || !appr[i] // not approved by its own shard = missed the session
+					}
 					if !ref.Failed {
 						trans[fmt.Sprintf("outcome:%d->%d", id.State, ref.Ids[i].New)] = true
 						if sig, det := c17rules(state.IdentityState(id.State), state.IdentityState(ref.Ids[i].New), done, missed); sig != "" {
@@ -696,6 +770,11 @@ func c17emitCer(c *hx.Ctx, cs c17cer) error {
 			c.Hit("cer:local-empty-payload-object")
 			break
 		}
+	}
+	if cs.Shards > 1 {
+		c.Hit(fmt.Sprintf("cer:shards=%d", cs.Shards))
+	} else {
+		c.Hit("cer:shards=1")
 	}
 	seen := map[string]bool{}
 	for _, f := range fails {
@@ -780,11 +859,25 @@ func c17genCer(c *hx.Ctx) c17cer {
 		cs.U10 = true
 	}
 	n := 4 + r.Intn(6)
+	if r.Intn(2) == 0 {
+		cs.Shards = 2 + r.Intn(2)
+		n = 7 + r.Intn(9)
+	}
 	withFlips := r.Intn(2) == 0
 	for i := 0; i < n; i++ {
 		id := c17ident{State: c17states[r.Intn(len(c17states))], Birthday: uint16(r.Intn(int(cs.Epoch) + 1)), Delegatee: -1, Inviter: -1, Stake: int64(r.Intn(50))}
 		if id.State == 0 {
 			id.State = 3
+		}
+		if cs.Shards > 1 {
+			// unequal shard sizes: candidate index ranges of different shards overlap partly
+			id.Shard = 1
+			if r.Intn(2) == 0 {
+				id.Shard = 2 + r.Intn(cs.Shards-1)
+			}
+			if cs.Shards == 3 && id.Shard == 3 && r.Intn(2) == 0 {
+				id.Shard = 2
+			}
 		}
 		if withFlips && id.State != 1 {
 			id.Required = uint8(r.Intn(4))
@@ -860,7 +953,10 @@ func c17genCer(c *hx.Ctx) c17cer {
 		if cs.Epoch == 0 && r.Intn(5) == 0 {
 			sub.Hash, sub.Short, sub.Long, sub.BadHash = true, "ok", "emptyobj", false // created and proposed by node X itself
 		}
-		if r.Intn(5) != 0 {
+		// evidence is accepted on a chain only from ceremony candidates that are not in Candidate state and do not delegate
+		idn := cs.Ids[i]
+		mayVote := idn.State != 2 && idn.State != 1 && uint8(idn.Flips) >= idn.Required && idn.Delegatee < 0
+		if r.Intn(5) != 0 && mayVote {
 			sub.HasEvi = true
 			for _, j := range mostApprove {
 				if r.Intn(12) != 0 {
